@@ -114,6 +114,9 @@ def gen_lmp(rng, natoms, nframes, style):
         text += "ITEM: ATOMS id type x y z vx vy vz id\n"
         ids = list(range(1, natoms + 1))
         rng.shuffle(ids)
+        if natoms >= 10 and ids[-1] < 10:   # a multi-digit trailing id on the last line: the sentinel matters
+            j = ids.index(natoms)
+            ids[j], ids[-1] = ids[-1], ids[j]
         rows = [None] * natoms
         for i in ids:
             toks = [gen_num(rng) for _ in range(6)]
@@ -477,7 +480,7 @@ def run(ctx):
     rng = ctx.rng
     os.makedirs("/var/tmp", exist_ok=True)
     tmpdir = tempfile.mkdtemp(prefix="verif-c13-", dir="/var/tmp")
-    ctx.rule = ("generated trajectories (1–4 atoms, 1–4 frames; integer/fixed/exponent/signed/'5.'/'.5' literals; "
+    ctx.rule = ("generated trajectories (1–4 atoms, 1–4 frames, plus LAMMPS files with 11–12 atoms for multi-digit ids; integer/fixed/exponent/signed/'5.'/'.5' literals; "
                 "compact, CP2K-like padded and randomly padded layouts; unsorted ids, 2- and 3-column box lines): "
                 "every single cut point 0..T (polls at c,T,T,T) for all of them and every pair of cut points "
                 "(c1<c2, polls at c1,c2,T,T,T) for the small ones, against the real reader object on a real growing "
@@ -502,7 +505,7 @@ def run(ctx):
             xyz_plan = [(1, 2, 0, True, None), (2, 2, 1, True, 4000), (1, 3, 2, True, 4000), (3, 2, 2, False, None),
                         (4, 4, 1, False, None), (2, 3, 0, False, None), (1, 1, 1, True, None), (3, 4, 0, False, None)]
             lmp_plan = [(1, 2, 0, True, 5000), (2, 2, 1, True, 2500), (3, 3, 0, False, None), (4, 4, 1, False, None),
-                        (1, 1, 0, True, None), (2, 4, 0, False, None)]
+                        (1, 1, 0, True, None), (2, 4, 0, False, None), (12, 2, 0, False, None)]
         else:
             for na in range(1, 5):
                 for nf in range(1, 5):
@@ -510,6 +513,7 @@ def run(ctx):
                         xyz_plan.append((na, nf, style, na * nf <= 4, 20000))
                     for style in range(2):
                         lmp_plan.append((na, nf, style, na * nf <= 2, 20000))
+            lmp_plan += [(12, 2, 0, False, None), (11, 3, 1, False, None)]
         for j, (na, nf, style, pairs, mp) in enumerate(xyz_plan):
             text, frames, bounds = gen_xyz(rng, na, nf, style)
             seqs = cut_seqs(len(text), pairs, rng, mp)
